@@ -24,7 +24,7 @@ def run(tier, seed, replay=None):
     res = vlib.harness_json(vh, ["firewall", "-vectors", vectors, "-seed", str(seed)], wd, timeout=3000)
     if res.get("inconclusive"):
         raise vlib.Inconclusive("; ".join(res["inconclusive"]))
-    if res["evaluations"] != nvec:
+    if res["evaluations"] != nvec and not res["violations"]:
         raise vlib.Inconclusive("harness evaluated %d of %d vectors" % (res["evaluations"], nvec))
     for viol in res["violations"]:
         v.violation(viol["sig"], viol["what"], viol["replay"])
